@@ -28,8 +28,8 @@ if [ $clean -ne 0 ] || [ $mut -eq 0 ] || [ $s1 -ne 0 ] || [ $s2 -ne 0 ]; then ec
 [ -z "$(git -C /repo status --porcelain)" ] || { echo "/repo not clean"; exit 2; }
 git -C /repo apply "$diff" || { echo "diff does not apply to /repo"; exit 2; }
 for p in $props; do
-  out=$(cd /verif && ./check.sh $p $tier 2>&1); rc=$?
+  out=$(cd /verif && VERIF_DIR=/tmp/tm_verifdir ./check.sh $p $tier 2>&1); rc=$?   # evidence of a mutant run never lands in /verif/evidence
   echo "CHECK $p exit=$rc $(echo "$out" | grep -c '^VIOLATION') violation lines: $(echo "$out" | grep -E '^  C[0-9]+/' | head -3 | cut -c1-260 | tr '\n' '|')"
 done
-git -C /repo checkout -q -- .
+git -C /repo checkout -q -- .; rm -rf /tmp/tm_verifdir
 [ -z "$(git -C /repo status --porcelain)" ] && echo "/repo restored"
